@@ -2417,11 +2417,13 @@ def build_manpages(context: Context) -> Dict[str, Union[str, bytes]]:
             manpages.append((filename.as_posix(), rendered))
             result[filename.as_posix()] = rendered
 
-    if manpages and config.bundle.manpages:
+    if config.bundle.manpages:
+        # A bundle name of an unknown format is reported whether or not any man page
+        # was rendered; only a bundle with something in it is emitted
         try:
-            result[config.bundle.manpages] = bundle(
-                PurePath(config.bundle.manpages), manpages
-            )
+            bundled = bundle(PurePath(config.bundle.manpages), manpages)
+            if manpages:
+                result[config.bundle.manpages] = bundled
         except ValueError:
             context.diagnostics[
                 FileId(config.config_path.relative_to(config.root))
